@@ -41,6 +41,12 @@ fn store_scenario(ctx: &Ctx, idx: u64) -> Report {
             .first()
             .and_then(|k| k.as_reply().and_then(|r| r.token.clone()))
             .unwrap_or_default();
+        // either `peers` distinct contacts, or the same handful announced over and over (renewals
+        // must not make the answer grow)
+        let renewals_of = if rng.gen_bool(0.3) { Some(rng.gen_range(1..=6usize)) } else { None };
+        if renewals_of.is_some() {
+            report.count("stores_filled_by_renewals_only");
+        }
         for p in 0..peers {
             let src = bed.client(peer_v6, 3);
             let q = Krpc::query(
@@ -48,7 +54,7 @@ fn store_scenario(ctx: &Ctx, idx: u64) -> Report {
                 gen::rand_id(&mut rng),
                 Query::AnnouncePeer {
                     info_hash: ih,
-                    port: Some(1 + p as u16),
+                    port: Some(1 + (match renewals_of { Some(k) => p % k, None => p }) as u16),
                     token: tok.clone(),
                 },
             );
@@ -109,12 +115,12 @@ pub fn check(tier: Tier) -> Check {
         id: "C17",
         level: "exploration",
         rule: "Stream store: a serving node (IPv4/IPv6, routing table filled from worlds of 0..400 nodes) gets \
-               {0,1,20,60,70,140,148,149,150,200,350,500} peers of one family announced on one info-hash and is \
+               {0,1,20,60,70,140,148,149,150,200,350,500} peers of one family (or, in 30 % of the runs, 1..6 peers re-announced that many times) announced on one info-hash and is \
                then asked get_peers / find_node (random targets and the info-hash itself) / ping / announce_peer (tokens of 0..1300 bytes) with every want, transaction ids of \
                0..32 bytes and requesters of both families. Streams mixed-*: the query storm of C05, the store \
                histories of C06/C07, the hostile searches of C03 and the bootstrap configurations of C15 are \
                re-run. Oracle: length of every datagram passed to the socket <= 1500. Oversize replies to get_peers \
-               queries (matched by source and transaction id) whose length without their values entries would fit are the known finding \
+               queries (matched by source and transaction id) that would fit without their values entries but not with every distinct value listed once are the known finding \
                C17-values-uncapped (see KNOWN_FINDINGS.txt); every other oversize datagram is a violation. \
                distinct_nontrivial = distinct (peers stored, peer family, world size, node family) plus the \
                scenario classes of the re-run streams.",
